@@ -1,4 +1,4 @@
-package wmesh
+package meshkit
 
 import (
 	"encoding/binary"
